@@ -7,6 +7,13 @@ ENGINES = [
 NOTES = "All checks rebuild from /repo's current working tree. Exit 2 = internal error of the machinery (never a verdict)."
 NOT_APPLICABLE = {}
 META = {
+    "C07": {
+        "engine": "controlled scheduler (vsched)",
+        "design_ref": "DESIGN.md section 3 C07, section 2.3",
+        "technique": "stateless deviation-bounded exploration of all goroutine interleavings and select choices of real pipelines (AST-instrumented kapacitor and edge packages, edge buffers of size 1) under a controlled scheduler; per-schedule oracle on acknowledged-vs-delivered points, termination, deadlock and goroutine leaks",
+        "level_text": "12 scenarios (4 pipelines with influxDBOut / log / window outputs x StopTask, DeleteTask, TaskMaster.Close) with a producer and a stopper goroutine; every schedule that deviates at most d times from the default schedule is executed on the real code (d=1 quick, d=2 thorough) and checked: every point acknowledged before the stop began reaches the output once and in order, stop returns, no deadlock verdict, no goroutine left in the bubble.",
+        "level_note": "Trusted: Go runtime/synctest, instrumenter (conformance run of upstream unit tests on rewritten packages). Alert handler outputs, loopback, httpPost and a node failing mid-pipeline are not yet among the scenarios. Plain-memory races are outside the explored space; schedules beyond the deviation bound are not covered.",
+    },
     "C09": {
         "engine": "explicit-state search + controlled scheduler (vsched)",
         "design_ref": "DESIGN.md section 3 C09, section 2.3",
